@@ -1,6 +1,6 @@
 \* behaviour generation (quick): EVERY history of length <= 2 in which only the last call may leave the
 \* state unchanged -- buffers <= 4 bytes, a 4-byte host array, dtype sizes 1/2/4, argument classes
-\* {NEGHUGE,-2,-1,0,1,L,L+1,HUGE} for single-handle calls, offsets {0,1} for device-to-device copies
+\* {NEGHUGE,-2,-1,0,1,L,L+1,HUGE} for single-handle calls, offsets {-1,0,1} for device-to-device copies
 SPECIFICATION Spec
 CONSTANTS
   NViews = 3
